@@ -820,6 +820,7 @@ fn tiny_atoms() -> Vec<Op> {
         Op::Range(TA, TB),
         Op::Range(TB, MAXC),
         Op::Range(0, TA),
+        Op::Str(vec![TA, TB]),
     ]
 }
 
@@ -871,7 +872,7 @@ fn shift_ops(ops: &[Op], by: usize) -> Vec<Op> {
         .collect()
 }
 
-/// Enumeration of ALL construction programs with at most two nested non-atomic operators over a 10-atom
+/// Enumeration of ALL construction programs with at most two nested non-atomic operators over an 11-atom
 /// vocabulary where the outer operator is unary or has an atomic operand (index space `tiny_count()`), plus
 /// sampled programs whose outer operator joins two level-2 terms. Program `idx` is built on demand.
 pub fn tiny_count() -> usize {
